@@ -114,6 +114,7 @@ func genC02(g *Gen) {
 	if p.Variant == "big" {
 		maxBig = 1 << 22
 		p.Proxy.MsgMax = []int{6 << 20, 3 << 20}[g.R.Intn(2)]
+		p.Proxy.BufCap = 65536 // see genC17: small read buffers make MiB messages quadratic
 		p.Sched.MaxSteps = 3000
 	}
 	cmds := LoadDocCommands().SingleKeyCmds()
